@@ -938,6 +938,7 @@ impl Connection {
     fn handle_result_metadata_new_id(
         prepared_statement: &PreparedStatement,
         query_response: &QueryResponse,
+        cached_metadata: Option<&Arc<ResultMetadata<'static>>>,
     ) {
         if let ResponseWithDeserializedMetadata::Result(ResultWithDeserializedMetadata::Rows(
             rows_result,
@@ -945,6 +946,15 @@ impl Connection {
         {
             // New metadata doesn't have id, so nothing to update.
             if rows_result.0.metadata().id().is_none() {
+                return;
+            }
+
+            // The server omitted the metadata (as we asked) and the rows carry our own request-time copy
+            // of the cached metadata: the server announced nothing. Storing that copy could overwrite newer
+            // metadata (with a newer id) that a concurrent execution installed while this response was in flight.
+            if cached_metadata
+                .is_some_and(|cached| std::ptr::addr_eq(Arc::as_ptr(cached), rows_result.0.metadata()))
+            {
                 return;
             }
 
@@ -1097,7 +1107,11 @@ impl Connection {
             tracing::warn!("Error while parsing tablet info from custom payload: {}", e);
         }
 
-        Self::handle_result_metadata_new_id(prepared_statement, &query_response);
+        Self::handle_result_metadata_new_id(
+            prepared_statement,
+            &query_response,
+            cached_metadata_params.cached_metadata,
+        );
 
         match &query_response.response {
             ResponseWithDeserializedMetadata::Error(frame::response::Error {
@@ -1139,7 +1153,11 @@ impl Connection {
                     tracing::warn!("Error while parsing tablet info from custom payload: {}", e);
                 }
 
-                Self::handle_result_metadata_new_id(prepared_statement, &new_response);
+                Self::handle_result_metadata_new_id(
+                    prepared_statement,
+                    &new_response,
+                    cached_metadata_params.cached_metadata,
+                );
 
                 Ok(new_response)
             }
